@@ -64,6 +64,25 @@ CHECKS.update({
         note="Trusted: rowan text ranges, MIR dump, stubs, z3. Raw-token starts are char boundaries by C14. Bounds: <= 2 / 3 raw tokens full "
              "alphabet, <= 3 / 4 over the error-recovery sub-alphabet. Literal-escape offsets (validation.rs) not yet covered.",
         technique=MC, design="6/C12"),
+    "C15": dict(
+        text="Pairs of lexemes from the reference lexeme grammar (/verif/spec/lexemes.py: each lexeme a list of symbolic code points "
+             "constrained by its regex via an NFA->SMT encoding; keywords and punctuation verbatim) are written with every separator the "
+             "fusion rules allow and run through the real LexedStr::new (MIR of oq3_lexer + oq3_parser). Proved on every path: the non-trivia "
+             "tokens are exactly the lexemes with the expected kinds and exact texts, nothing but trivia in between, no lexical error; each "
+             "keyword is also placed next to one fully symbolic character (keyword kind iff the character cannot continue an identifier).",
+        note="Trusted: lexeme grammar excerpt, MIR dump, string model, Unicode tables clipped to the stated code-point range, z3. Bounds: "
+             "symbolic characters in U+0000..U+03FF, identifiers <= 3 chars, literals <= 5 chars, pairs of lexemes (quick: every class against "
+             "12 representative neighbours on both sides; thorough: all pairs).",
+        technique=MC, design="6/C15"),
+    "C20": dict(
+        text="promote_types and can_cast_literal (and the helpers they call, incl. the derived PartialEq/Clone) are executed from MIR on every "
+             "ordered pair of type shapes (all 27 constructors; width present/absent; array rank) with symbolic widths (all u32), const flags, "
+             "dimensions and arities. The property's clauses (symmetry up to const, idempotence, upper bound, const only if both, Void iff no "
+             "bound, literal castability) are SMT obligations over an order written from the property text; refuted clauses are re-evaluated "
+             "on the native functions for the concrete counterexample.",
+        note="Trusted: MIR dump, stubs (cmp::max, Box forwarding), z3. Bounds: array rank 1 (quick) / 1-3 (thorough), SubroutineDef return type "
+             "one level deep, triples (associativity) in the thorough tier only.",
+        technique=MC, design="6/C20"),
     "C16": dict(
         text="Three runs of the real parser (MIR) on shared symbolic tokens: T[..k], T[k..] and T (also T inside gate/def/if/while/for/case "
              "block bodies). Whenever both parts parse without an Error event, the whole is proved to parse without Error and its statement "
